@@ -151,6 +151,23 @@ package jp
 //@       entry [C05 C11 slice-inner] hid < lo ==> hid < i && i <= lo && i + step <= hid && (lo - i) % (0 - step) == 0
 //@       invariant [C05 C11 slice-inner] lo < n && step < 0 && start == lo && len(results) == L0 && -1 < i
 
+// Wildcard fragment on a plain array, as the last fragment: every element is a result, in array order, after the
+// results collected so far; as an inner fragment nothing is added to the results and every element is visited
+// (from the last index down to 0, so that the stack pops them in array order).
+//@   region wildAny = case Wildcard > case []any
+//@     let n = len(tv)
+//@     let L0 = len(results)
+//@     let R0 = snap(results)
+//@     let last0 = int(fi) == len(x) - 1
+// (assumed, A-OWN: the result list is allocated by Get and does not share storage with the data)
+//@     assume arrid(results) != arrid(tv)
+//@     assert [C05 C11 wild-last] last0 ==> len(results) == L0 + n
+//@     assert [C05 C11 wild-last-elems] last0 ==> (forall j: 0 <= j && j < n ==> results[L0 + j] == tv[j])
+//@     assert [C05 C11 wild-last-keep] last0 ==> (forall j: 0 <= j && j < L0 ==> results[j] == R0[j])
+//@     assert [C05 C11 wild-inner] !last0 ==> len(results) == L0
+//@     loop 0
+//@       invariant [C05 C11 wild-inner] -1 <= i && i < n && len(results) == L0 && n == len(tv)
+
 // Union fragment, integer member on a plain array: the member selects exactly the element its index denotes; the
 // found flag is cleared for every member (checked where the union loops enter these clauses).
 //@   region unionTop = case Union
